@@ -69,7 +69,7 @@ def _check_values_are_feasible(study: Study, values: Sequence[float]) -> str | N
         # return `value` is assumed to be ignored on failure so we can set it to any value.
         try:
             float_value = float(v)
-        except (ValueError, TypeError, OverflowError):
+        except Exception:
             return f"The value {repr(v)} could not be cast to float"
 
         if math.isnan(float_value):
